@@ -39,15 +39,65 @@ pub struct FreeCase {
     pub repeats: usize,
 }
 
-fn solo(inst: &Instance) -> Vec<String> {
-    // a fresh thread per solo replay
-    let inst = inst.clone();
-    std::thread::spawn(move || {
-        let mut g = inst.spec.build();
-        inst.ops.iter().map(|op| apply(&mut *g, op).map(|v| fmt_val(&v)).unwrap_or_default()).collect::<Vec<_>>()
-    })
-    .join()
-    .unwrap_or_default()
+fn solo_here(inst: &Instance) -> Vec<String> {
+    let mut g = inst.spec.build();
+    inst.ops.iter().map(|op| apply(&mut *g, op).map(|v| fmt_val(&v)).unwrap_or_default()).collect::<Vec<_>>()
+}
+
+/// solo replays of all instances, one after the other, in one fresh thread
+fn solo_all(insts: &[Instance]) -> Vec<Vec<String>> {
+    let insts = insts.to_vec();
+    std::thread::spawn(move || insts.iter().map(solo_here).collect::<Vec<_>>()).join().unwrap_or_default()
+}
+
+/// solo trace of one instance computed in a fresh child process (`vcheck --solo-trace`): state
+/// that lives for the whole process (lazily initialised statics, caches) cannot carry over
+pub fn solo_fresh_process(inst: &Instance) -> Result<Vec<String>, String> {
+    use std::io::Write;
+    let exe = std::env::current_exe().map_err(|e| e.to_string())?;
+    let mut child = Command::new(exe).arg("--solo-trace").stdin(std::process::Stdio::piped()).stdout(std::process::Stdio::piped()).stderr(std::process::Stdio::null()).spawn().map_err(|e| e.to_string())?;
+    child.stdin.take().unwrap().write_all(serde_json::to_string(inst).unwrap().as_bytes()).map_err(|e| e.to_string())?;
+    let out = child.wait_with_output().map_err(|e| e.to_string())?;
+    if !out.status.success() {
+        return Err(format!("child exited with {:?}", out.status));
+    }
+    serde_json::from_slice(&out.stdout).map_err(|e| e.to_string())
+}
+
+/// entry point of the child process
+pub fn solo_trace_main() {
+    let mut text = String::new();
+    use std::io::Read;
+    std::io::stdin().read_to_string(&mut text).expect("stdin");
+    let inst: Instance = serde_json::from_str(&text).expect("instance json");
+    let mut g = inst.spec.build();
+    let tr: Vec<String> = inst.ops.iter().map(|op| apply(&mut *g, op).map(|v| fmt_val(&v)).unwrap_or_default()).collect();
+    println!("{}", serde_json::to_string(&tr).unwrap());
+}
+
+/// all instances constructed and advanced round-robin in this (long-lived, shared) process must
+/// produce the traces that each produces alone in a fresh process
+pub fn check_fresh(c: &FreeCase) -> CheckResult {
+    let k = c.instances.len();
+    let mut gens: Vec<Box<dyn Gen>> = c.instances.iter().map(|i| i.spec.build()).collect();
+    let mut traces: Vec<Vec<String>> = vec![Vec::new(); k];
+    let longest = c.instances.iter().map(|i| i.ops.len()).max().unwrap_or(0);
+    for step in 0..longest {
+        for i in 0..k {
+            if step < c.instances[i].ops.len() {
+                traces[i].push(apply(&mut *gens[i], &c.instances[i].ops[step]).map(|v| fmt_val(&v)).unwrap_or_default());
+            }
+        }
+    }
+    for i in 0..k {
+        let want = solo_fresh_process(&c.instances[i]).map_err(|e| Fail::inconclusive("C19:child-process", e))?;
+        if want != traces[i] {
+            let p = traces[i].iter().zip(want.iter()).position(|(a, b)| a != b).unwrap_or(0);
+            return Err(Fail::new(format!("C19:depends-on-process-history:{}", c.instances[i].spec.ty().name()), format!("instance {} ({}): value of op #{} in a process where other generators were created and used before differs from the same instance run alone in a fresh process (process-wide hidden state)", i, c.instances[i].spec.ty().name(), p))
+                .exp_act(want.get(p), traces[i].get(p)));
+        }
+    }
+    Ok(CaseInfo::new(k >= 2).class(format!("instances:{}", k.min(8))).class_if(c.instances.iter().any(|i| matches!(&i.spec, GenSpec::Det { ctor: crate::ops::Ctor::Seed(s), .. } if s.is_zero())), "has-zero-seed"))
 }
 
 enum Job {
@@ -60,7 +110,7 @@ pub fn check_scenario(c: &Scenario) -> CheckResult {
     if k == 0 {
         return Ok(CaseInfo::new(false));
     }
-    let before: Vec<Vec<String>> = c.instances.iter().map(solo).collect();
+    let before: Vec<Vec<String>> = solo_all(&c.instances);
     let m = c.workers.clamp(1, 4);
     // workers
     let (res_tx, res_rx) = mpsc::channel::<(usize, SendBox, String)>();
@@ -149,7 +199,7 @@ pub fn check_scenario(c: &Scenario) -> CheckResult {
         let _ = h.join();
     }
     result?;
-    let after: Vec<Vec<String>> = c.instances.iter().map(solo).collect();
+    let after: Vec<Vec<String>> = solo_all(&c.instances);
     for i in 0..k {
         if before[i] != after[i] {
             return Err(Fail::new(format!("C19:solo-changed:{}", c.instances[i].spec.ty().name()), format!("instance {}: the solo replay after the interleaved run differs from the solo replay before it (hidden state survived)", i)));
@@ -173,7 +223,7 @@ pub fn check_scenario(c: &Scenario) -> CheckResult {
 pub fn check_free(c: &FreeCase) -> CheckResult {
     let k = c.instances.len();
     let m = c.workers.clamp(1, 8);
-    let want: Vec<Vec<String>> = c.instances.iter().map(solo).collect();
+    let want: Vec<Vec<String>> = solo_all(&c.instances);
     for rep in 0..c.repeats.max(1) {
         let barrier = std::sync::Arc::new(std::sync::Barrier::new(m));
         let mut hs = Vec::new();
@@ -280,7 +330,7 @@ fn instance(max_ops: usize) -> BoxedStrategy<Instance> {
 
 /// instances with deliberate repeats: same type, sometimes the very same spec
 fn instances(max_k: usize, max_ops: usize) -> BoxedStrategy<Vec<Instance>> {
-    (proptest::collection::vec(instance(max_ops), 1..=max_k), proptest::collection::vec((0usize..8, 0u8..4), 0..=4), proptest::collection::vec(gens::ops(&Ty::Xoshiro256Plus.info(), max_ops, 300, true), 4))
+    (proptest::collection::vec(instance(max_ops), 1..=max_k), proptest::collection::vec((0usize..8, 0u8..8), 0..=4), proptest::collection::vec(gens::ops(&Ty::Xoshiro256Plus.info(), max_ops, 300, true), 4))
         .prop_map(move |(mut v, dups, extra_ops)| {
             for (n, (src, mode)) in dups.into_iter().enumerate() {
                 if v.len() >= max_k {
@@ -291,6 +341,29 @@ fn instances(max_k: usize, max_ops: usize) -> BoxedStrategy<Vec<Instance>> {
                 match mode {
                     0 => {}                                 // identical twin
                     1 => d.ops = extra_ops[n % 4].clone(),  // same seed, other history
+                    // related seeds (anything keyed on a weak digest of the seed would confuse
+                    // them): words rotated / halves swapped / constant-byte seeds
+                    4 | 5 | 6 | 7 => {
+                        if let GenSpec::Det { ty, ctor: crate::ops::Ctor::Seed(sd) } = &s.spec {
+                            let mut b = sd.bytes.clone();
+                            let len = b.len();
+                            match mode {
+                                4 => b.rotate_left(4 % len),
+                                5 => b.rotate_left(len / 2),
+                                6 => b = vec![(n as u8).wrapping_mul(37).wrapping_add(1); len],
+                                _ => b.reverse(),
+                            }
+                            d.spec = GenSpec::Det { ty: *ty, ctor: crate::ops::Ctor::Seed(crate::ops::SeedBytes { class: "related".into(), bytes: b }) };
+                            if mode == 6 {
+                                // and make the source a constant-byte seed too
+                                let idx = src % v.len();
+                                if let GenSpec::Det { ctor: crate::ops::Ctor::Seed(s0), .. } = &mut v[idx].spec {
+                                    let l = s0.bytes.len();
+                                    s0.bytes = vec![(n as u8).wrapping_mul(11).wrapping_add(2); l];
+                                }
+                            }
+                        }
+                    }
                     _ => {
                         // same type, other seed
                         if let GenSpec::Det { ty, .. } = &s.spec {
@@ -331,6 +404,14 @@ pub fn def(ctx: &Ctx) -> PropDef {
                 check_scenario,
             ));
         }
+        for part in 0..t.pick(1, 4) {
+            subs.push(PSub::boxed(
+                format!("fresh-process/{}", part),
+                t.pick(60, 1500),
+                || (instances(6, 8), Just(1usize), Just(1usize)).prop_map(|(instances, workers, repeats)| FreeCase { instances, workers, repeats }).boxed(),
+                check_fresh,
+            ));
+        }
         for part in 0..4 {
             subs.push(PSub::boxed(
                 format!("free-running/{}", part),
@@ -342,7 +423,7 @@ pub fn def(ctx: &Ctx) -> PropDef {
     }
     PropDef {
         id: "C19",
-        rule: "scenario = up to 6 generator instances (types drawn from the 19 deterministic types + scripted JitterRng, with deliberate repeats: identical twins, same seed with another history, same type with another seed; zero seeds; construction is part of the history and happens on the scheduled thread) + a generated schedule of (instance, worker thread) pairs over 1..4 real OS threads: a coordinator hands the boxed generator and one operation to the scheduled worker and gets both back, so exactly one operation runs at a time and the interleaving, including migrations between threads, is the generated one. Oracle: every instance's trace equals its solo replay in a fresh thread, executed both before and after the interleaved run. Free-running mode: instances partitioned over 2..8 unsynchronised threads, repeated. Static part: a probe crate asserting Send + Sync for every type is compiled against the current tree. Non-trivial = >= 2 instances of the same type advanced alternately and >= 1 thread migration; distinct by hash of the scenario.".into(),
+        rule: "scenario = up to 6 generator instances (types drawn from the 19 deterministic types + scripted JitterRng, with deliberate repeats: identical twins, same seed with another history, same type with another seed; zero seeds; construction is part of the history and happens on the scheduled thread) + a generated schedule of (instance, worker thread) pairs over 1..4 real OS threads: a coordinator hands the boxed generator and one operation to the scheduled worker and gets both back, so exactly one operation runs at a time and the interleaving, including migrations between threads, is the generated one. Oracle: every instance's trace equals its solo replay in a fresh thread, executed both before and after the interleaved run. Free-running mode: instances partitioned over 2..8 unsynchronised threads, repeated. Fresh-process mode: the traces of instances created and advanced round-robin inside the long-lived checker process (where thousands of other generators were created before) must equal the traces each instance produces alone in a freshly spawned child process, so process-wide lazily initialised state cannot hide. Static part: a probe crate asserting Send + Sync for every type is compiled against the current tree. Non-trivial = >= 2 instances of the same type advanced alternately and >= 1 thread migration; distinct by hash of the scenario.".into(),
         explanation: None,
         assumptions: vec![
             "interleavings inside one operation are not enumerated (the crates contain no synchronisation primitives to instrument)".into(),
